@@ -12,11 +12,12 @@ import (
 	"fmt"
 	"regexp"
 	"strings"
+	"sync"
 
 	"github.com/tetratelabs/wazero"
 	"github.com/tetratelabs/wazero/api"
 	"github.com/tetratelabs/wazero/experimental"
-	"github.com/tetratelabs/wazero/experimental/table"
+	"github.com/tetratelabs/wazero/internal/wasm"
 	"github.com/tetratelabs/wazero/sys"
 	"github.com/tetratelabs/wazero/verifharness/core"
 	"github.com/tetratelabs/wazero/verifharness/wenc"
@@ -172,6 +173,24 @@ type hostState struct {
 	depth   int
 }
 
+// hostStates maps the calling instance to its own host-side state, so that
+// the harness's host functions do not themselves couple instances.
+type hostStates struct {
+	mu sync.Mutex
+	m  map[api.Module]*hostState
+	// def is used for calls made while the instance is not registered yet (start functions)
+	def *hostState
+}
+
+func (h *hostStates) get(mod api.Module) *hostState {
+	h.mu.Lock()
+	defer h.mu.Unlock()
+	if s, ok := h.m[mod]; ok {
+		return s
+	}
+	return h.def
+}
+
 func mix(h uint64, v uint64) uint64 {
 	h ^= v + 0x9E3779B97F4A7C15 + (h << 6) + (h >> 2)
 	h *= 0xBF58476D1CE4E5B9
@@ -186,11 +205,11 @@ func canonVal(t wenc.ValType, v uint64) uint64 {
 }
 
 // BuildHost instantiates module "env" for p on rt.
-func BuildHost(ctx context.Context, rt wazero.Runtime, p *wgen.Program, hs *hostState) error {
+func BuildHost(ctx context.Context, rt wazero.Runtime, p *wgen.Program, hss *hostStates) error {
 	if len(p.Host) == 0 {
 		return nil
 	}
-	b := rt.NewHostModuleBuilder("env")
+	b := rt.NewHostModuleBuilder(p.Cfg.HostModuleName())
 	for hi, h := range p.Host {
 		h := h
 		hi := hi
@@ -198,6 +217,7 @@ func BuildHost(ctx context.Context, rt wazero.Runtime, p *wgen.Program, hs *host
 		switch h.Kind {
 		case "log":
 			fn = func(ctx context.Context, mod api.Module, stack []uint64) {
+				hs := hss.get(mod)
 				hs.counter++
 				acc := mix(uint64(hi+1), hs.counter)
 				args := make([]uint64, len(h.Params))
@@ -224,6 +244,7 @@ func BuildHost(ctx context.Context, rt wazero.Runtime, p *wgen.Program, hs *host
 			}
 		case "cb":
 			fn = func(ctx context.Context, mod api.Module, stack []uint64) {
+				hs := hss.get(mod)
 				arg := uint32(stack[0])
 				hs.t.add("  host hcb(%#x) depth=%d", arg, hs.depth)
 				if hs.depth >= 2 {
@@ -250,6 +271,7 @@ func BuildHost(ctx context.Context, rt wazero.Runtime, p *wgen.Program, hs *host
 			}
 		case "grow":
 			fn = func(ctx context.Context, mod api.Module, stack []uint64) {
+				hs := hss.get(mod)
 				d := uint32(stack[0]) & 1
 				prev, ok := mod.Memory().Grow(d)
 				hs.t.add("  host hgrow(%d) -> %d,%v", d, prev, ok)
@@ -260,6 +282,7 @@ func BuildHost(ctx context.Context, rt wazero.Runtime, p *wgen.Program, hs *host
 			}
 		case "write":
 			fn = func(ctx context.Context, mod api.Module, stack []uint64) {
+				hs := hss.get(mod)
 				off, val := uint32(stack[0])&0xffff, uint32(stack[1])
 				ok := mod.Memory().WriteUint32Le(off, val)
 				hs.t.add("  host hwrite(%#x,%#x) -> %v", off, val, ok)
@@ -271,9 +294,17 @@ func BuildHost(ctx context.Context, rt wazero.Runtime, p *wgen.Program, hs *host
 	return err
 }
 
-// Run executes the script and returns the trace.
-func Run(p *wgen.Program, script []Step, opt Options) *Trace {
-	t := &Trace{}
+// Session is one runtime in which instances of generated programs live.
+type Session struct {
+	Ctx   context.Context
+	Rt    wazero.Runtime
+	opt   Options
+	hosts map[string]*hostStates
+	cms   map[*wgen.Program]wazero.CompiledModule
+}
+
+// NewSession creates a runtime for programs needing the given features.
+func NewSession(opt Options, feats api.CoreFeatures) *Session {
 	ctx := opt.Ctx
 	if ctx == nil {
 		ctx = context.Background()
@@ -284,74 +315,149 @@ func Run(p *wgen.Program, script []Step, opt Options) *Trace {
 	} else {
 		rc = wazero.NewRuntimeConfigInterpreter()
 	}
-	rc = rc.WithCoreFeatures(Features(p.Cfg))
+	rc = rc.WithCoreFeatures(feats)
 	if opt.RuntimeConfig != nil {
 		rc = opt.RuntimeConfig(rc)
 	}
-	rt := wazero.NewRuntimeWithConfig(ctx, rc)
-	defer rt.Close(ctx)
-	hs := &hostState{t: t}
-	if err := BuildHost(ctx, rt, p, hs); err != nil {
-		t.add("host module error: %v", err)
-		return t
+	return &Session{Ctx: ctx, Rt: wazero.NewRuntimeWithConfig(ctx, rc), opt: opt, hosts: map[string]*hostStates{}, cms: map[*wgen.Program]wazero.CompiledModule{}}
+}
+
+func (s *Session) Close() { s.Rt.Close(s.Ctx) }
+
+// Compile compiles p in this session without instantiating ("" = ok).
+func (s *Session) Compile(p *wgen.Program) string {
+	if s.cms[p] != nil {
+		return ""
 	}
-	cm, err := rt.CompileModule(ctx, p.Bin)
+	cm, err := s.Rt.CompileModule(s.Ctx, p.Bin)
 	if err != nil {
-		t.CompileErr = err.Error()
-		t.add("compile error: %s", firstLine(err.Error()))
-		return t
+		return firstLine(err.Error())
 	}
-	mod, err := rt.InstantiateModule(ctx, cm, wazero.NewModuleConfig().WithName("guest"))
+	s.cms[p] = cm
+	return ""
+}
+
+// CloseCompiled closes this session's CompiledModule of p.
+func (s *Session) CloseCompiled(p *wgen.Program) {
+	if cm := s.cms[p]; cm != nil {
+		cm.Close(s.Ctx)
+		delete(s.cms, p)
+	}
+}
+
+// Inst is one instance with its own trace.
+type Inst struct {
+	S   *Session
+	P   *wgen.Program
+	Mod api.Module
+	T   *Trace
+}
+
+// Instantiate compiles p (once per session) and instantiates it under name.
+// The returned Inst has Mod == nil when compile/instantiate failed (recorded in the trace).
+func (s *Session) Instantiate(p *wgen.Program, name string) *Inst {
+	in := &Inst{S: s, P: p, T: &Trace{}}
+	t := in.T
+	hn := p.Cfg.HostModuleName()
+	hss := s.hosts[hn]
+	if hss == nil && len(p.Host) > 0 {
+		hss = &hostStates{m: map[api.Module]*hostState{}}
+		if err := BuildHost(s.Ctx, s.Rt, p, hss); err != nil {
+			t.add("host module error: %v", err)
+			return in
+		}
+		s.hosts[hn] = hss
+	}
+	cm := s.cms[p]
+	if cm == nil {
+		var err error
+		cm, err = s.Rt.CompileModule(s.Ctx, p.Bin)
+		if err != nil {
+			t.CompileErr = err.Error()
+			t.add("compile error: %s", firstLine(err.Error()))
+			return in
+		}
+		s.cms[p] = cm
+	}
+	hs := &hostState{t: t}
+	if hss != nil {
+		hss.mu.Lock()
+		hss.def = hs // start function runs before the instance is known
+		hss.mu.Unlock()
+	}
+	mod, err := s.Rt.InstantiateModule(s.Ctx, cm, wazero.NewModuleConfig().WithName(name))
 	if err != nil {
 		cls := ErrClass(err)
 		noteClass(t, cls)
 		t.add("instantiate: %s", cls)
-		return t
+		return in
 	}
+	if hss != nil {
+		hss.mu.Lock()
+		hss.m[mod] = hs
+		hss.mu.Unlock()
+	}
+	in.Mod = mod
 	t.add("instantiate: ok")
-	if !opt.NoDigest {
+	if !s.opt.NoDigest {
 		t.add("%s", Digest(mod, p))
 	}
-	setFuel := mod.ExportedFunction("__setfuel")
-	fuel := opt.Fuel
-	if fuel == 0 {
-		fuel = p.Cfg.Fuel
+	return in
+}
+
+// Step executes one script step on the instance.
+func (in *Inst) Step(si int, s Step) {
+	if in.Mod == nil {
+		return
 	}
-	for si, s := range script {
-		switch s.Kind {
-		case "call":
-			if _, err := setFuel.Call(ctx, uint64(uint32(fuel))); err != nil {
-				t.add("setfuel: %s", ErrClass(err))
-			}
-			f := mod.ExportedFunction(s.Fn)
-			res, err := f.Call(ctx, s.Args...)
-			if err != nil {
-				cls := ErrClass(err)
-				noteClass(t, cls)
-				t.add("%s -> %s", s.String(), cls)
-			} else {
-				t.add("%s -> [%s]", s.String(), hexList(canonResults(f.Definition().ResultTypes(), res)))
-			}
-		case "memwrite":
-			ok := mod.Memory().WriteUint64Le(s.Off, s.Val)
-			t.add("%s -> %v", s.String(), ok)
-		case "memgrow":
-			prev, ok := mod.Memory().Grow(uint32(s.Val))
-			t.add("%s -> %d,%v", s.String(), prev, ok)
-		case "globalset":
-			if g, ok := mod.ExportedGlobal(s.Fn).(api.MutableGlobal); ok {
-				g.Set(s.Val)
-				t.add("%s", s.String())
-			}
+	t, mod, ctx, p := in.T, in.Mod, in.S.Ctx, in.P
+	switch s.Kind {
+	case "call":
+		fuel := in.S.opt.Fuel
+		if fuel == 0 {
+			fuel = p.Cfg.Fuel
 		}
-		if !opt.NoDigest {
-			t.add("%s", Digest(mod, p))
+		if _, err := mod.ExportedFunction("__setfuel").Call(ctx, uint64(uint32(fuel))); err != nil {
+			t.add("setfuel: %s", ErrClass(err))
 		}
-		if opt.OnStep != nil {
-			opt.OnStep(si, mod)
+		f := mod.ExportedFunction(s.Fn)
+		res, err := f.Call(ctx, s.Args...)
+		if err != nil {
+			cls := ErrClass(err)
+			noteClass(t, cls)
+			t.add("%s -> %s", s.String(), cls)
+		} else {
+			t.add("%s -> [%s]", s.String(), hexList(canonResults(f.Definition().ResultTypes(), res)))
+		}
+	case "memwrite":
+		ok := mod.Memory().WriteUint64Le(s.Off, s.Val)
+		t.add("%s -> %v", s.String(), ok)
+	case "memgrow":
+		prev, ok := mod.Memory().Grow(uint32(s.Val))
+		t.add("%s -> %d,%v", s.String(), prev, ok)
+	case "globalset":
+		if g, ok := mod.ExportedGlobal(s.Fn).(api.MutableGlobal); ok {
+			g.Set(s.Val)
+			t.add("%s", s.String())
 		}
 	}
-	return t
+	if !in.S.opt.NoDigest {
+		t.add("%s", Digest(mod, p))
+	}
+	if in.S.opt.OnStep != nil {
+		in.S.opt.OnStep(si, mod)
+	}
+}
+
+// Run executes the script on a lone instance in a fresh runtime and returns the trace.
+func Run(p *wgen.Program, script []Step, opt Options) *Trace {
+	s := NewSession(opt, Features(p.Cfg))
+	defer s.Close()
+	in := s.Instantiate(p, "guest")
+	for si, st := range script {
+		in.Step(si, st)
+	}
+	return in.T
 }
 
 func noteClass(t *Trace, cls string) {
@@ -435,26 +541,34 @@ func tableSlot(mod api.Module, p *wgen.Program, i uint32) (out string) {
 	if r[0] == 1 {
 		return "null"
 	}
-	for _, ft := range p.Types {
+	for ti, ft := range p.Types {
 		if s := lookup(mod, i, ft); s != "" {
-			return s
+			return fmt.Sprintf("t%d.%s", ti, s)
 		}
 	}
 	return "?"
 }
 
+// lookup resolves a table slot to "<module>.<function index>" if the element
+// has type ft. It goes through the module engine directly (internal API):
+// experimental/table.LookupFunction raises Go runtime errors for host
+// functions stored in tables unless listeners happen to be attached.
 func lookup(mod api.Module, i uint32, ft wenc.FuncType) (out string) {
 	defer func() {
 		if recover() != nil {
 			out = ""
 		}
 	}()
-	f := table.LookupFunction(mod, 0, i, ft.Params, ft.Results)
-	if f == nil {
+	m, ok := mod.(*wasm.ModuleInstance)
+	if !ok || len(m.Tables) == 0 {
 		return ""
 	}
-	d := f.Definition()
-	return fmt.Sprintf("%s.%d", d.ModuleName(), d.Index())
+	typ := &wasm.FunctionType{Params: ft.Params, Results: ft.Results}
+	typ.CacheNumInUint64()
+	// only the function index is used: for host functions the compiler engine's
+	// LookupFunction returns a pointer that is not a *ModuleInstance.
+	_, index := m.Engine.LookupFunction(m.Tables[0], m.GetFunctionTypeID(typ), i)
+	return fmt.Sprintf("f%d", index)
 }
 
 // Diff returns the index and text of the first differing event ("" if equal).
